@@ -50,7 +50,10 @@ QSelected ==
      /\ (ev.sel = -1 /\ r.outcome = "novalid") => ev.cleared      \* a selection that no longer exists is forgotten
   /\ UNCHANGED <<bugs, idents, comments>>
 
-Next == Pop \/ QEntity \/ QComment \/ QCombined \/ QSelected
+(* a removal addressed by a prefix that names one bug alone: accepted, and the bug's ref is gone (the population announced next no
+   longer has it) *)
+RemovedByPrefix == IsEv("RemovedByPrefix") /\ ~ev.refused /\ ~ev.refleft /\ UNCHANGED <<bugs, idents, comments>>
+Next == RemovedByPrefix \/ Pop \/ QEntity \/ QComment \/ QCombined \/ QSelected
 Spec == Init /\ [][Next]_<<l, bugs, idents, comments>>
 TraceAccepted == TLCGet("stats").diameter - 1 = Len(Trace)
 =============================================================================
